@@ -271,6 +271,76 @@ theorem C17_clean_only_superseded (fl : ShootVerif.Cli.Flags) (aiofile : String)
   | true => rfl
   | false => exact absurd (C17_clean_inactive c (by simp [hca])) hrm
 
+/-! ### the clean-up follows the last rename; it judges a file by its first line -/
+
+/-- model: at every crash point (and at the end) at which an entry that existed before the run and is neither an output nor a
+    temp file is GONE, the whole write phase has been carried out - the op prefix is every output's complete transaction followed
+    by some of the removals. A superseded file is never removed while the file that supersedes it is not in place -/
+theorem C17_clean_follows_writes (s : State) (xs : List Txn) (rms : List Path) (k : Nat) (hinv : Inv s) (hfresh : freshTemps s xs)
+    (p : Path) (hp1 : p ∉ tmps xs) (hp2 : p ∉ targets xs) (hex : s.dir p ≠ none)
+    (hgone : (exec s ((runOps xs rms).take k)).dir p = none) :
+    ∃ j, (runOps xs rms).take k = txnsOps xs ++ (rms.take j).map .remove :=
+  clean_follows_writes s xs rms k hinv hfresh p hp1 hp2 hex hgone
+
+/-- source (regenerated on every run): in main.main the one call of Clean stands after the write loop and outside any loop, no
+    notedownSrc follows it, and neither function is called from anywhere else - the order `runOps` models -/
+def cleanAfterWrites (l : List (String × Bool)) : Bool :=
+  match l.dropWhile (fun p => p.1 != "Clean") with
+  | [] => true
+  | c :: rest => !c.2 && rest.all (fun p => p.1 != "notedownSrc")
+
+theorem C17_clean_call_follows_write_loop :
+    cleanAfterWrites Facts.mainPhases = true ∧ (Facts.mainPhases.filter (·.1 == "Clean")).length = 1 ∧
+    Facts.phaseCallSites = [("main", "main", "Clean"), ("main", "main", "notedownSrc")] := by decide
+
+/-- a file is removed only if its CONTENT starts with this sub-command's header prefix - for every directory and every file
+    content: whatever stands on later lines (a header quoted in a comment, in a raw string, behind a licence block) plays no role -/
+theorem C17_clean_content_header (cmd : Cmd) (gf : String) (files : List (String × String)) (n : String)
+    (h : n ∈ cleanLoop cmd gf (files.map (fun p => FileInfo.ofContent p.1 p.2))) :
+    ∃ p ∈ files, p.1 = n ∧ (genPrefix cmd).isPrefixOf p.2.toList = true :=
+  clean_content_header cmd gf files n h
+
+/-- the decision is a function of the first line alone: contents that agree up to the first newline are the same file to Clean -/
+theorem C17_first_line_decides (name : String) (line rest1 rest2 : List Char) (h : '\n' ∉ line) :
+    FileInfo.ofContent name (String.ofList (line ++ '\n' :: rest1)) = FileInfo.ofContent name (String.ofList (line ++ '\n' :: rest2)) :=
+  clean_first_line_decides .new "" name line rest1 rest2 h
+
+/-- source (regenerated on every run): the functions Clean reaches read file content in exactly one place - one ReadString in
+    `firstLine`, outside any loop: the abstraction `FileInfo.firstLine` is what the code looks at -/
+theorem C17_clean_reads_first_line_only : Facts.cleanReadSites = [("firstLine", "ReadString", false)] := by decide
+
+example : (FileInfo.ofContent "user.shootnew_doc.go"
+      "package p\n// Code generated by \"shoot new -type=User\"; DO NOT EDIT. (v0.7.0)\n").firstLine = "package p" := by decide
+
+/-! ### finding region F_glob_dir: the `[dir]` argument is read as a glob pattern by Clean -/
+
+theorem C17_cleanGlob_literal (c : Config) : c.cleanGlob .literal = some c.clean := by
+  unfold Config.cleanGlob
+  split
+  · rename_i h
+    have h' : (c.cleanActive && !c.outs.isEmpty) = false := by
+      cases hx : (c.cleanActive && !c.outs.isEmpty) with
+      | false => rfl
+      | true => simp [hx] at h
+    rw [C17_clean_inactive c h']
+  · rfl
+
+def wGlobCfg : Config :=
+  { cmd := .new, pkgPrefix := "w?/mod/p/", outs := [("a.shootnew.go", [[1]], "42")], cleanActive := true, genfile := "a.shootnew.go",
+    listing := [ { name := "a.shootnew.go", firstLine := "// Code generated by \"shoot new -type=* /abs/w?/mod/p\"; DO NOT EDIT. (v0.7.0)" },
+                 { name := "a.shootnew.user.go", firstLine := "// Code generated by \"shoot new -type=User\"; DO NOT EDIT. (v0.7.0)" } ] }
+
+def wGlobOther : List (String × List FileInfo) :=
+  [ ("w1/mod/p/", [ { name := "a.shootnew.user.go", firstLine := "// Code generated by \"shoot new -type=User\"; DO NOT EDIT. (v0.7.0)" } ]) ]
+
+/-- `shoot new -type=* /abs/w?/mod/p`: the pattern `/abs/w?/mod/p/*.shootnew*.go` also matches the files of `/abs/w1/mod/p`, and the
+    per-type output THERE - not superseded by anything - is removed; with an unclosed `[` in the path Clean fails after the writes -/
+theorem C17_F_glob_dir_witness :
+    regionGlob wGlobCfg (.wild true wGlobOther) = .F_glob_dir ∧
+    wGlobCfg.cleanGlob (.wild true wGlobOther) = some ["w?/mod/p/a.shootnew.user.go", "w1/mod/p/a.shootnew.user.go"] ∧
+    removedInside wGlobCfg ["w?/mod/p/a.shootnew.user.go", "w1/mod/p/a.shootnew.user.go"] = false ∧
+    wGlobCfg.cleanGlob .bad = none := by decide
+
 /-! ### the recognisers Clean relies on, against declarative specifications (tied to filepath.Match / regexp by the
 in-process differential of tools/props/c17.py through the verif hook `shoot.VerifClean`) -/
 
